@@ -104,7 +104,34 @@ fn pacer_hook(ev: Event) {
 				lock().decs[id].waits += 1;
 			}
 		}
-		Event::Sync(_) => {}
+		Event::Sync(site) => {
+			// mid-callback injection (one deviation from "the decoder only runs between callbacks"): at the n-th pass of
+			// a non-decoder thread through a stream.* site, the decoder `dec` is granted `steps` iterations and the
+			// passing thread waits until they are done
+			if DEC_ID.with(|d| d.get()).is_some() || !site.starts_with("stream.") || !crate::rig::in_callback() {
+				return;
+			}
+			let fire = {
+				let mut inj = INJECT.lock().unwrap_or_else(|e| e.into_inner());
+				match inj.as_mut() {
+					Some(i) if !i.fired => {
+						i.seen += 1;
+						if i.seen == i.nth {
+							i.fired = true;
+							i.site_hit = Some(site);
+							Some((i.dec, i.steps))
+						} else {
+							None
+						}
+					}
+					_ => None,
+				}
+			};
+			if let Some((dec, steps)) = fire {
+				let _pause = crate::rig::PauseAllocCount::new();
+				step(dec, steps);
+			}
+		}
 		Event::ThreadSpawned => {
 			// the spawner waits until the child has parked at its first gate, so that the
 			// set of decoder threads is the same in every run
@@ -131,6 +158,30 @@ fn pacer_hook(ev: Event) {
 				CV.notify_all();
 			}
 		}
+	}
+}
+
+pub struct Inject {
+	pub dec: usize,
+	/// the injection happens at the nth pass (1-based) of the audio thread through any stream.* sync point
+	pub nth: u64,
+	pub steps: u64,
+	seen: u64,
+	fired: bool,
+	pub site_hit: Option<&'static str>,
+}
+static INJECT: Mutex<Option<Inject>> = Mutex::new(None);
+
+/// arm one mid-callback injection (see the hook); returns nothing - query `injection_site()` afterwards
+pub fn arm_injection(dec: usize, nth: u64, steps: u64) {
+	*INJECT.lock().unwrap_or_else(|e| e.into_inner()) = Some(Inject { dec, nth, steps, seen: 0, fired: false, site_hit: None });
+}
+/// disarm; returns (site at which it fired, passes seen so far)
+pub fn disarm_injection() -> (Option<&'static str>, u64) {
+	let i = INJECT.lock().unwrap_or_else(|e| e.into_inner()).take();
+	match i {
+		Some(i) => (i.site_hit, i.seen),
+		None => (None, 0),
 	}
 }
 
